@@ -42,7 +42,9 @@ def changed_names(rep, names):
     for kind in ("fn-changed", "var-changed"):
         for e in rep.entries(kind):
             hit = [n for n in names if e.mentions(n)]
-            out.add(hit[0] if hit else e.text[:60])
+            # implementation names of versioned functions (f__v, f__n, f__o<k>) are the generator's own artefact: the
+            # interface is f whatever name its implementation has on either side
+            out.add(re.sub(r"__(v|n|o\d)$", "", hit[0]) if hit else e.text[:60])
     return out
 
 
@@ -56,7 +58,7 @@ def case(ctx, i):
     def deco(p, rng_):
         if symbolic:
             c18.decorate(p, rng_, "so")
-        if p.ntus >= 2 and rng_.random() < 0.3:
+        if p.ntus >= 2 and rng_.random() < (0.5 if symbolic else 0.3):
             p.tu_nodebug.add(p.ntus - 1)
     cat = dict(mutate.MIXED)
     if symbolic:
